@@ -137,6 +137,8 @@ Section Inv.
 Variable c : cfgT.
 Variable f0 : fsT.
 Variable cmd : command.
+(* strict: regular files named layerconfig.tmp are excluded as well (no stale temporaries) *)
+Variable strict : bool.
 
 Definition good (x : bytes) : Prop := C11.complete_version c f0 cmd [] x = true.
 
@@ -165,7 +167,7 @@ Qed.
 
 (* ------------------------------------------------------------------ the invariant *)
 Definition Phi (q y : bytes) : Prop :=
-  ends_ok q = true /\ pathbase q <> LCT /\ (pathbase q = LCF -> good y).
+  ends_ok q = true /\ (strict = true -> pathbase q <> LCT) /\ (pathbase q = LCF -> good y).
 Definition J : fsT -> Prop := FJ Phi.
 (* what the property asks of the final tree *)
 Definition Sf (g : fsT) : Prop := forall q y, In (q, File y) g -> pathbase q = LCF -> good y.
@@ -188,7 +190,7 @@ Qed.
 Lemma Phi_other pre n y : dirpre pre -> n <> [] -> noslash n -> n <> LCF -> n <> LCT -> Phi (pre ++ n) y.
 Proof.
   intros Hp Hn Hs H1 H2. unfold Phi. rewrite (pathbase_comp pre n Hn Hs Hp).
-  repeat split; [now apply ends_ok_comp|exact H2|contradiction].
+  repeat split; [now apply ends_ok_comp|intros _; exact H2|contradiction].
 Qed.
 
 (* ------------------------------------------------------------------ the temporary-file protocol *)
@@ -223,13 +225,13 @@ Proof.
   - injection Hq as <- <-. rewrite Ht in Hb. symmetry in Hb. now apply LCF_neq_LCT in Hb.
 Qed.
 
-Lemma open_tmp t : pathbase t = LCT -> hoare J (do_op e (OOpen t)) (fun _ => Jw t []) J.
+Lemma open_tmp t : strict = true -> pathbase t = LCT -> hoare J (do_op e (OOpen t)) (fun _ => Jw t []) J.
 Proof.
-  intros Ht. unfold do_op. apply h_mutate_real; [exact Hreal|auto|]. unfold apply_op.
+  intros Hst Ht. unfold do_op. apply h_mutate_real; [exact Hreal|auto|]. unfold apply_op.
   eapply h_bind; [apply h_get_fs|]. intros f. eapply h_bind; [apply h_get_ks|]. intros k.
   apply h_on_fres; [now intros g [Hg _]|]. intros g f' [Hg ->] Hr.
   unfold open_trunc in Hr. destruct (lstat g t) as [[|old|lt]|] eqn:El; try discriminate.
-  - exfalso. apply fs_get_in in El. destruct (Hg _ _ El) as (_ & H2 & _). now apply H2.
+  - exfalso. apply fs_get_in in El. destruct (Hg _ _ El) as (_ & H2 & _). now apply (H2 Hst).
   - destruct (is_dir g (pathdir t)); [|discriminate]. injection Hr as <-. exists g. auto.
 Qed.
 
@@ -277,7 +279,7 @@ Proof.
     + rewrite at_or_under_refl in E. discriminate.
     + rewrite E in Hm. injection Hm as <- <-. unfold p. unfold Phi.
       rewrite (pathbase_comp pre LCF LCF_nonempty LCF_noslash Hpre).
-      repeat split; [apply ends_ok_comp; [apply LCF_nonempty|apply LCF_noslash]|apply LCF_neq_LCT|auto].
+      repeat split; [apply ends_ok_comp; [apply LCF_nonempty|apply LCF_noslash]|intros _; apply LCF_neq_LCT|auto].
     + exfalso. apply (f_equal (@length _)) in E0. destruct Ha as [->|[Hroot ->]].
       * rewrite app_length in E0. cbn [length] in E0. lia.
       * apply (f_equal (@length _)) in Hroot. rewrite Lt in Hroot. cbn in Hroot. lia.
@@ -297,13 +299,13 @@ Proof.
   intros Hpre. rewrite <- app_assoc. fold LCT. apply pathbase_comp; [apply LCT_nonempty|apply LCT_noslash|exact Hpre].
 Qed.
 
-Lemma wfa_J pre chunks : dirpre pre -> good (concat chunks) ->
+Lemma wfa_J pre chunks : strict = true -> dirpre pre -> good (concat chunks) ->
   hoare J (write_file_atomically e (pre ++ LCF) chunks) (fun _ => J) Sf.
 Proof.
-  intros Hpre HX s Hs. unfold write_file_atomically.
+  intros Hst Hpre HX s Hs. unfold write_file_atomically.
   set (p := pre ++ LCF). set (t := p ++ tmp_suffix).
   assert (Ht : pathbase t = LCT) by (apply tmp_base; exact Hpre).
-  pose proof (open_tmp t Ht s Hs) as H1.
+  pose proof (open_tmp t Hst Ht s Hs) as H1.
   destruct (do_op e (OOpen t) s) as [[[]| | | |] s1]; try (now apply J_Sf).
   pose proof (cursor_J t chunks [] s1 H1) as H2. cbn [app] in H2.
   destruct (cursor_writes e t chunks s1) as [[[]| | | |] s2].
@@ -495,12 +497,12 @@ Lemma lf_wf_parts b ms es : lf_wf b ms es = true <->
   base_ok b = true /\ forallb nm_ok_import ms = true /\ forallb nm_ok_export es = true.
 Proof. unfold lf_wf. rewrite !andb_true_iff. tauto. Qed.
 
-Lemma p_write_layerfile l : lf_wf (l_base l) (l_mounts l) (l_exports l) = true ->
+Lemma p_write_layerfile l : strict = true -> lf_wf (l_base l) (l_mounts l) (l_exports l) = true ->
   from_old (l_base l) (l_mounts l) (l_exports l) -> pres J Sf (write_layerfile e l).
 Proof.
-  intros Hwf Hold. unfold write_layerfile, layerconfig_path.
+  intros Hst Hwf Hold. unfold write_layerfile, layerconfig_path.
   destruct (pathjoin2_shape (l_path l) LCF LCF_plain) as (pre & E & Hpre).
-  change D_LayerconfigFile with LCF. rewrite E. apply wfa_J; [exact Hpre|now apply good_rewrite].
+  change D_LayerconfigFile with LCF. rewrite E. apply wfa_J; [exact Hst|exact Hpre|now apply good_rewrite].
 Qed.
 
 Lemma test_name_need m n : test_name m n NNeed = true -> n <> [] /\ legal_name n = true.
@@ -527,10 +529,10 @@ Proof.
 Qed.
 
 (* ------------------------------------------------------------------ rebase *)
-Lemma p_rebase ld name newbase : ML ld -> cmd = CRebase name newbase ->
+Lemma p_rebase ld name newbase : strict = true -> ML ld -> cmd = CRebase name newbase ->
   pres J Sf (rebase_layer e c ld name newbase).
 Proof.
-  intros HML Hcmd. unfold rebase_layer. apply (p_guard_then J Sf JE). intros G1.
+  intros Hst HML Hcmd. unfold rebase_layer. apply (p_guard_then J Sf JE). intros G1.
   apply andb_true_iff in G1 as [_ G1]. apply test_name_opt in G1.
   destruct (lm_get (ld_map ld) name) as [l|] eqn:El; [|apply (p_panic J Sf JE)].
   destruct (ML_get _ _ _ HML El) as [(Hp & Hwf & o & Ho & Hm & Hx & Hb) Hn].
@@ -540,7 +542,7 @@ Proof.
   apply (p_bind J Sf); [apply (p_guard J Sf JE)|]. intros u4.
   apply (p_bind J Sf); [apply p_renormalize|]. intros ld'.
   apply (p_bind J Sf); [|intros u5; apply (p_ret J Sf)].
-  apply p_write_layerfile; cbn [set_base l_base l_mounts l_exports].
+  apply p_write_layerfile; [exact Hst| |]; cbn [set_base l_base l_mounts l_exports].
   - apply lf_wf_parts in Hwf as (_ & H2 & H3). apply lf_wf_parts. auto.
   - exists o. repeat split; auto. right. rewrite Hcmd. reflexivity.
 Qed.
@@ -554,10 +556,10 @@ Proof.
   - apply filter_In in H as [H _]. now apply filter_In in H as [H _].
 Qed.
 
-Lemma p_rename ld oldname newname : ML ld -> cmd = CRename oldname newname -> newname <> LCF ->
+Lemma p_rename ld oldname newname : strict = true -> ML ld -> cmd = CRename oldname newname -> newname <> LCF ->
   pres J Sf (rename_layer e c ld oldname newname).
 Proof.
-  intros HML Hcmd Hnew. unfold rename_layer. apply (p_guard_then J Sf JE). intros G1.
+  intros Hst HML Hcmd Hnew. unfold rename_layer. apply (p_guard_then J Sf JE). intros G1.
   apply andb_true_iff in G1 as [_ G1]. apply test_name_free in G1 as [Hne Hleg].
   destruct (lm_get (ld_map ld) oldname) as [l|] eqn:El; [|apply (p_panic J Sf JE)].
   destruct (ML_get _ _ _ HML El) as [(Hp & Hwf & o & Ho & Hm & Hx & Hb) Hn].
@@ -571,13 +573,13 @@ Proof.
   intros u5. apply (p_bind J Sf).
   { apply (p_mapM J Sf). intros k Hk. apply kids_in in Hk.
     unfold ML in HML. rewrite Forall_forall in HML. destruct (HML k Hk) as (_ & Hkwf & ok & Hok & Hkm & Hkx & _).
-    apply p_write_layerfile; cbn [set_base l_base l_mounts l_exports].
+    apply p_write_layerfile; [exact Hst| |]; cbn [set_base l_base l_mounts l_exports].
     - apply lf_wf_parts in Hkwf as (_ & H2 & H3). apply lf_wf_parts. repeat split; auto.
       apply base_ok_tok. now apply legal_tok.
     - exists ok. repeat split; auto. right. rewrite Hcmd. reflexivity. }
   intros u6. apply (p_bind J Sf); [apply p_renormalize|]. intros ld'.
   apply (p_bind J Sf); [|intros u7; apply (p_ret J Sf)].
-  apply p_write_layerfile; cbn [set_name_path l_base l_mounts l_exports]; [exact Hwf|].
+  apply p_write_layerfile; [exact Hst| |]; cbn [set_name_path l_base l_mounts l_exports]; [exact Hwf|].
   exists o. repeat split; auto.
 Qed.
 
@@ -606,10 +608,10 @@ Proof. intros H g ->. exact H. Qed.
 Lemma P0_Sf : J f0 -> forall g, g = f0 -> Sf g.
 Proof. intros H g ->. now apply JE. Qed.
 
-Lemma p_add ld name base cf : J f0 -> ML ld -> cmd = CAdd name base cf -> cmd_ok c f0 cmd = true ->
+Lemma p_add ld name base cf : strict = true -> J f0 -> ML ld -> cmd = CAdd name base cf -> cmd_ok c f0 cmd = true ->
   hoare (fun g => g = f0) (add_layer e c ld name base cf) (fun _ => J) Sf.
 Proof.
-  intros HJ0 HML Hcmd Hok. unfold add_layer.
+  intros Hst HJ0 HML Hcmd Hok. unfold add_layer.
   apply h_guard_then; [now apply P0_Sf|]. intros G1. apply andb_true_iff in G1 as [Gn Gb].
   apply test_name_free in Gn as [Hne Hleg]. apply test_name_opt in Gb.
   apply h_guard_then; [now apply P0_Sf|]. intros G2.
@@ -635,7 +637,7 @@ Proof.
   destruct K as [Kwf Kold].
   eapply h_pre; [|apply (P0_J HJ0)].
   apply (p_bind J Sf); [apply p_fs_mkdir|]. intros u1.
-  apply (p_bind J Sf); [apply p_write_layerfile; assumption|]. intros u2.
+  apply (p_bind J Sf); [apply p_write_layerfile; [exact Hst| |]; assumption|]. intros u2.
   apply (p_bind J Sf); [apply p_fs_mkdir|]. intros u3.
   apply (p_bind J Sf); [|intros u4; apply p_renormalize].
   destruct base.
@@ -678,10 +680,10 @@ Proof.
 Qed.
 
 (* ------------------------------------------------------------------ one invocation *)
-Lemma run_command_J um : J f0 -> Forall Lok (read_layer_files c f0) -> cmd_ok c f0 cmd = true ->
+Lemma run_command_J um : strict = true -> J f0 -> Forall Lok (read_layer_files c f0) -> cmd_ok c f0 cmd = true ->
   hoare (fun g => g = f0) (run_command e c um cmd) (fun _ => J) Sf.
 Proof.
-  intros HJ0 HL Hok. remember cmd as cm eqn:Ecm in |- *.
+  intros Hst HJ0 HL Hok. remember cmd as cm eqn:Ecm in |- *.
   assert (Gen : forall (body : ldefs -> M ldefs),
     (forall ld, ML ld -> hoare (fun g => g = f0) (body ld) (fun _ => J) Sf) ->
     hoare (fun g => g = f0)
@@ -749,11 +751,11 @@ Lemma step_spec_eq c w v :
   C11.step_spec c w v = if e_pretend (v_env v) then true else conj1 c w v && conj2 c w v.
 Proof. reflexivity. Qed.
 
-Lemma files_ok_J c f cmd : files_ok f = true -> J c f cmd f.
+Lemma files_ok_J c f cmd : files_ok f = true -> J c f cmd true f.
 Proof.
   intros H q y Hq. unfold files_ok in H. rewrite forallb_forall in H. specialize (H _ Hq). cbn [fst snd] in H.
   apply andb_true_iff in H as [H1 H2]. apply negb_true_iff in H2. apply beq_false in H2.
-  split; [exact H1|]. split; [exact H2|]. intros Hb. apply good_old. eapply in_olds; eauto.
+  split; [exact H1|]. split; [intros _; exact H2|]. intros Hb. apply good_old. eapply in_olds; eauto.
 Qed.
 
 Lemma view_of_model_fields c w e cmd um :
@@ -771,12 +773,12 @@ Proof.
   set (f0 := wo_fs w) in *.
   pose proof (files_ok_J c f0 cmd H1) as HJ0.
   pose proof (loaded_Lok c f0 H2) as HL.
-  pose proof (run_command_J c f0 cmd e Hp um HJ0 HL H3 (MkSt (world_of w) 0 []) eq_refl) as HR.
+  pose proof (run_command_J c f0 cmd true e Hp um eq_refl HJ0 HL H3 (MkSt (world_of w) 0 []) eq_refl) as HR.
   destruct (view_of_model_fields c w e cmd um) as (E1 & _ & E3 & _).
   unfold conj1. rewrite E1, E3. unfold run. fold f0.
   assert (HS : Sf c f0 cmd (fs_of (snd (run_command e c um cmd (MkSt (world_of w) 0 []))))).
   { destruct (run_command e c um cmd (MkSt (world_of w) 0 [])) as [[a| | | |] st]; cbn [snd]; try exact HR.
-    now apply J_Sf. }
+    now apply (J_Sf c f0 cmd true). }
   apply forallb_forall. intros [q n] Hq. cbn [fst snd]. destruct n as [|x|t]; try reflexivity.
   destruct (beq (pathbase q) D_LayerconfigFile) eqn:Eb; [|reflexivity]. apply beq_true in Eb.
   destruct (under (c_layers c) q); [|reflexivity]. cbn [andb].
